@@ -397,6 +397,29 @@ def run_C15(res):
         else:
             res.count("timed_scripts_shape_only")
     twin_scripts_C15(res, rnd)
+    rim_scripts_C15(res, rnd)
+
+
+def rim_scripts_C15(res, rnd):
+    """searches deep enough for the pruning rules to meet rim checks (back-rank king under pawn fire, checkers on far edge squares)"""
+    import concurrent.futures
+    from props_search import edge_check_fens
+    ps = [l for l in run_driver(["feninw " + f for f in edge_check_fens(rnd, 300)]) if l not in ("PANIC", "bad-op")]
+    ok = in_domain(ps)
+    ps = [p for p, o in zip(ps, ok) if o][: (24 if res.tier == "quick" else 300)]
+    fens = [f for f in run_hx(["fenout " + p for p in ps]) if f not in ("PANIC", "DIED")]
+    jobs = [(["isready", "position fen " + f, "go depth " + str(rnd.choice([4, 5])), "isready", "quit"], b) for f in fens for b in ("release", "checked")]
+    with concurrent.futures.ThreadPoolExecutor(12) as ex:
+        outs = list(ex.map(lambda j: run_engine(j[0], j[1], timeout=60), jobs))
+    for (sc, b), (rc, out, err, to, secs) in zip(jobs, outs):
+        res.evaluations += 1
+        res.count("rim_check_scripts")
+        if to:
+            res.fail("engine hung (no exit within 60 s)", script=sc, build=b)
+        elif rc != 0 or "panicked" in err:
+            res.fail("engine crashed", script=sc, build=b, exit_status=rc, stderr=err[-300:])
+        elif out.count("readyok") != 2 or sum(1 for l in out.split("\n") if l.startswith("bestmove")) != 1:
+            res.fail("wrong number of readyok / bestmove lines", script=sc, build=b)
 
 
 def twin_scripts_C15(res, rnd):
